@@ -72,3 +72,34 @@ def judge_trace(module, cfg, trace_path, outcome, what, timeout=900, deque=False
     if verdict is None:
         raise MachineryError("TLC judge %s printed no VERDICT (trace not consumed?)\n%s" % (module, r.out[-2000:]))
     return verdict[0], verdict[1], r
+
+
+def inductive_proof(outcome, ind_module, proof_module, next_="NextU", cinit="ConstInit", safety="Safety", what="", apalache_too=True):
+    """Unbounded safety of a small specification: the inductive invariant IndInv of <ind_module> is discharged symbolically by Apalache
+    (Init => IndInv, IndInv /\\ Next => IndInv', IndInv => Safety) and the same argument is proved by the TLA+ proof system on <proof_module>.
+    Any failure is a defect of the specification / proof (machinery), never a verdict about the code."""
+    jobs = []
+    if apalache_too:
+        jobs += [("apalache base: Init => IndInv", lambda: common.apalache(ind_module, "Init", "IndInv", 0, next_, cinit)),
+                 ("apalache step: IndInv /\\ Next => IndInv'", lambda: common.apalache(ind_module, "IndInit", "IndInv", 1, next_, cinit)),
+                 ("apalache: IndInv => %s" % safety, lambda: common.apalache(ind_module, "IndInit", safety, 0, next_, cinit)),
+                 # non-vacuity: the inductive invariant admits a state in which a compaction is under way while Close waits for it
+                 ("apalache non-vacuity: IndInv is satisfiable in an interesting state", lambda: common.apalache(ind_module, "IndInit", "Vacuous", 0, next_, cinit))]
+    jobs.append(("tlapm: %s" % proof_module, lambda: common.tlapm(proof_module)))
+    res = common.parallel(lambda j: j[1](), jobs, nthreads=len(jobs))
+    rec = []
+    for (name, _), r in zip(jobs, res):
+        if name.startswith("tlapm"):
+            ok, nobl, w, tail = r
+            rec.append({"what": name, "proved": ok, "obligations": nobl, "wall_s": round(w, 1)})
+            if not ok:
+                raise MachineryError("tlapm did not prove %s: %s" % (proof_module, tail))
+        else:
+            st, w, tail = r
+            want = "violated" if "non-vacuity" in name else "ok"
+            rec.append({"what": name, "outcome": st, "wall_s": round(w, 1)})
+            if st != want:
+                raise MachineryError("%s: expected %s, got %s: %s" % (name, want, st, tail))
+    outcome.extra.setdefault("unbounded_proofs", []).append({"spec": what, "steps": rec})
+    log("[proof] %s: %s" % (what, "; ".join("%s %.0fs" % (r["what"].split(":")[0], r["wall_s"]) for r in rec)))
+    return rec
